@@ -397,12 +397,14 @@ def big_int8_case(draw, sizes=(33, 40, 63, 64, 65, 100, 127), shortest=True):
         bits[M.edge_bit(n, n, (i, j), (i + 1, j))] = 1
     g = M.g_make(n, n, bits)
     a = M.adj(g)
-    lo_cell = (draw(st.integers(0, 2)), draw(st.integers(0, n - 1)))
-    hi_cell = (draw(st.integers(n - 3, n - 1)), draw(st.integers(0, n - 1)))
+    # both endpoints in a band of six rows (solutions of at most a few hundred cells), usually the band with the largest coordinates
+    top = draw(st.sampled_from([n - 6, n - 6, n - 6, (n - 6) // 2, 0]))
+    lo_cell = (top + draw(st.integers(0, 1)), draw(st.integers(0, n - 1)))
+    hi_cell = (top + draw(st.integers(3, 5)), draw(st.integers(0, n - 1)))
     s, e = (lo_cell, hi_cell) if draw(st.booleans()) else (hi_cell, lo_cell)
     if not shortest and draw(st.booleans()):
-        k0, k1 = sorted((order.index(s), order.index(e)))
-        sol = order[k0 : k1 + 1]
+        k0, k1 = order.index(s), order.index(e)
+        sol = order[k0 : k1 + 1] if k0 <= k1 else order[k1 : k0 + 1][::-1]
     else:
         sol = M.shortest_path(a, s, e)
     return {"g": g, "sol": [list(q) for q in sol], "dtype": "int8"}
